@@ -765,13 +765,13 @@ class iindex(dict):
                 coords = (coords,)
 
             new_coord = mapping.get(coords[0])
-            if new_coord == new_common:
+            if new_coord is not None:
+                coords = (new_coord,) + coords[1:]
+            if coords[0] == new_common:
                 # More than one coord maps to the new common coord.
                 # Skip, but flag so that common is shifted below.
                 merged = True
                 continue
-            if new_coord is not None:
-                coords = (new_coord,) + coords[1:]
 
             v = new_entries.get(coords)
             if v is not None:
